@@ -209,7 +209,10 @@ private:
       op->stopSource_.request_stop();
 
       if (op->activeOpCount_.fetch_sub(1, std::memory_order_acq_rel) == 1) {
-        // we're the last owner of the operation so deliver its result now
+        // we're the last owner of the operation so deliver its result now;
+        // deregister from the receiver's stop token first because the token
+        // must not be used once the receiver has been completed
+        op->stopCallback_.reset();
         op->deliver_result();
       }
     }
